@@ -286,7 +286,7 @@ def h3_cases(ctx, examples, shard):
             if key not in reasons and len(reasons) < 60:
                 reasons[key] = (code, reason)
         ctx.case(tuple((p[0], bytes(p[1])) for p in plan), nontrivial=dispatched, classes=["h3:" + prefix_kind, "h3:logging" if logging_on else "h3:nolog"])
-        if ctx.evaluations % 500 == 0:
+        if ctx.want_sample():
             ctx.sample({"role": "client" if is_client else "server", "logging": logging_on, "plan": [[p[0], bytes(p[1])[:24], p[2] if len(p) > 2 else None] for p in plan][:6]})
 
     run_hypothesis(ctx, body, st.data(), examples, shard=shard)
@@ -370,7 +370,7 @@ def h0_cases(ctx, examples, shard):
                 ctx.violation(exc_signature(e, "h0-raised-"), "H0Connection.handle_event raised %r (role=%s)" % (e, "client" if is_client else "server"), case)
                 break
         ctx.case(tuple(plan), nontrivial=got, classes=["h0:client" if is_client else "h0:server"])
-        if ctx.evaluations % 300 == 0:
+        if ctx.want_sample():
             ctx.sample(case)
 
     run_hypothesis(ctx, body, strat, examples, shard=shard)
